@@ -26,6 +26,7 @@
 #include "vpeer.h"
 #include "vs.h"
 #include "orderrace.h"
+#include "sendrace.h"
 #include <errno.h>
 #include <fcntl.h>
 #include <pthread.h>
@@ -1170,5 +1171,7 @@ main(int argc, char **argv)
 			if (i == 0 || vx_is_thorough())
 				orc_explore_tiers(&OR[i]);
 	}
+	SR_PROP = "C06";
+	sr_explore("C06", 2, vx_is_thorough());
 	return vx_finish();
 }
